@@ -49,11 +49,11 @@ def run_check(mod, tier, seed):
             broken.append(("forbidden-construct", "; ".join(forb[:5])))
         bok, out, dt = vlib.lake_build(mod.LAKE_TARGETS)
         cov["proof_build_s"] = round(dt, 1)
-        thms, examples, lemmas = vlib.count_theorems(prop)
+        thms, examples, lemmas = vlib.count_theorems(prop, getattr(mod, "PROPS_FILES", None))
         cov["property_theorems"] = thms
         cov["obligations"] = len(thms) + lemmas + examples
         if bok:
-            aok, per, problems = vlib.audit_axioms(prop, native_ok=getattr(mod, "NATIVE_OK", ()))
+            aok, per, problems = vlib.audit_axioms(prop, native_ok=getattr(mod, "NATIVE_OK", ()), files=getattr(mod, "PROPS_FILES", None))
             cov["axioms"] = per
             if not aok:
                 broken.append(("axiom-audit", "; ".join(problems[:5])))
@@ -64,7 +64,7 @@ def run_check(mod, tier, seed):
             model_ok = True
             if tier == "thorough" and getattr(mod, "LEANCHECKER", True):
                 with vlib.Lock("lake"):
-                    rc, o, dt2 = vlib.run(["lake", "env", "leanchecker", "Uflow.Props." + prop], cwd=vlib.LEAN, timeout=3600)
+                    rc, o, dt2 = vlib.run(["lake", "env", "leanchecker"] + ["Uflow.Props." + f for f in getattr(mod, "PROPS_FILES", [prop])], cwd=vlib.LEAN, timeout=3600)
                 cov["leanchecker"] = "ok (%.0fs)" % dt2 if rc == 0 else "FAILED: " + o[-300:]
                 if rc != 0:
                     broken.append(("leanchecker", o[-300:]))
